@@ -40,9 +40,12 @@ def main(tier, only=None):
         hs = [e1.H("h_mark_live_" + n, "mark_live/batch-" + n, unwind=9, unwindset=us, timeout=900,
                    witness=(i % 8 == 0), desc="graphs %d..%d" % (i * GB, i * GB + GB - 1))
               for i, n in enumerate(names)]
-        e1.run_set(chk, "c15/link.c", hs, workers=8)
+        import os
+        e1.run_set(chk, "c15/link.c", hs, workers=8, extra_src=[os.path.join(vf.REPO, "type.c")])
     if want("scan_globals"):
-        e1.run_set(chk, "c15/link.c", [e1.H("h_scan_globals", "scan_globals/tentative", unwind=9, timeout=300)], workers=2)
+        import os
+        e1.run_set(chk, "c15/link.c", [e1.H("h_scan_globals", "scan_globals/tentative", unwind=9, timeout=300)], workers=2,
+                   extra_src=[os.path.join(vf.REPO, "type.c")])
     if want("emit"):
         hs = [e1.H("h_gen_addr", "emit/address-formation", unwind=42, timeout=300),
               e1.H("h_emit_data", "emit/data", unwind=42, timeout=300),
@@ -88,6 +91,7 @@ def unit_family(chk, thorough):
         ("tentative/incomplete-then-complete", "int e[]; int e[3] = {1, 2, 3};\n", "return e[2] * 100 + sizeof(e);", 312),
         ("tentative/incomplete-then-complete-tentative", "int e[]; int e[3];\n", "return e[2] + sizeof(e);", 12),
         ("tentative/complete-then-incomplete", "int a4[4]; int a4[];\n", "return a4[3] + sizeof(a4);", 16),
+        ("tentative/incomplete-alone", "int lone[];\n", "lone[0] = 6; return lone[0] + 1;", 7),
         ("tentative/complete-then-extern-incomplete", "int a4[4]; extern int a4[];\n", "return a4[3] + sizeof(a4);", 16),
         ("extern/with-initializer", "extern int x = 5;\n", "return x;", 5),
         ("extern/declared-then-defined", "extern long y; long y = 1L << 40;\n", "return y >> 38;", 4),
